@@ -115,7 +115,8 @@ func spoiled(rng *rand.Rand, legacy bool) []byte {
 	items, _ := genForProgram(rng, legacy)
 	text := string(render(rng, items, rng.Intn(2) == 0))
 	ls := strings.Split(text, "\n")
-	junk := []string{"=", "= 1", "|", "&", "!", "~", "\"", "\x00", "\x1a", ",", ":", ";", "rof", "for", "for 2", "equ", "end", "(", ")", "==", "1 2", "é", "\xff"}
+	// no digits: a number glued to a count (`equ 1 1 2` is 112) makes the expansion itself huge
+	junk := []string{"=", "= x", "|", "&", "!", "~", "\"", "\x00", "\x1a", ",", ":", ";", "rof", "for", "for k", "equ", "end", "(", ")", "==", "x y", "é", "\xff"}
 	k := 1
 	if rng.Intn(5) == 0 {
 		k = 2
